@@ -412,7 +412,8 @@ reg("np.asfortranarray", "np.asfortranarray(M) #N#X")
 reg("methods", "T4.prod(axis=(0, 1))", "T4.prod(axis=(-1,))", "T4.sum(axis=(0, 2)) #K", "T4.var(axis=(1, 2))", "T4.std(axis=(0, 1)) #K", "T4.max(axis=(0, 2)) #K", "T4.mean(axis=(-1,)) #K",
     "T4.min(axis=(1,)) #K", "T4.ptp(axis=(0, 1)) #K" if hasattr(np.ndarray, "ptp") else "T4.sum(axis=(1,)) #K")
 reg("np.prod", "np.prod(T4, axis=(0, 1))", "np.prod(T4, axis=(0, 2), keepdims=True)", "np.multiply.reduce(T4, axis=(0, 1))", "np.multiply.reduce(T4, axis=(1,))", "np.add.reduce(T4, axis=(0, 2)) #K",
-    "np.var(T4, axis=(0, 1))", "np.median(T4, axis=(0, 1)) #K", "np.nanprod(T4, axis=(1, 2))", "np.ptp(T4, axis=(0, 1)) #K", "np.linalg.norm(T4, axis=(1, 2)) #K#T", "np.count_nonzero(T4, axis=(0, 1))")
+    "np.var(T4, axis=(0, 1))", "np.median(T4, axis=(0, 1)) #K", "np.nanprod(T4, axis=(1, 2))", "np.ptp(T4, axis=(0, 1)) #K", "np.linalg.norm(T4, axis=(1, 2)) #K#T")
+reg("np.count_nonzero", "np.count_nonzero(T4, axis=(0, 1))", "np.count_nonzero(M, axis=0)", "np.count_nonzero(M, axis=1, keepdims=True)")
 reg("np.pad", "np.pad(M, 1, constant_values=((q2lo, q2hi), (qa, q2lo))) #K", "np.pad(M, ((1, 0), (0, 2)), constant_values=((qa, q2hi), (q2lo, qa))) #K",
     "np.pad(a, (1, 2), mode='linear_ramp', end_values=((q2lo, q2hi),)) #K", "np.pad(M, 1, mode='linear_ramp', end_values=((q2lo, qa), (qa, q2hi))) #K", "np.pad(a, 2, constant_values=[(q2lo, q2hi)]) #K")
 reg("np.isclose", "np.isclose(np.asarray(a) * 1.25, a, rtol=0.22, atol=0) #X", "np.isclose(a, np.asarray(a) * 1.25, rtol=0.22, atol=0) #X", "np.allclose(np.asarray(a) * 1.25, a, rtol=0.22, atol=0) #X",
